@@ -28,7 +28,7 @@ from pyvc.values import NONE, VBool, VInt, VRef, VSeq, VStr, VTuple, VType, VUnk
 from pyvc.verify import Maker, p_bool, p_int, p_str
 from contracts import c05spec as sp
 from contracts import c05lemmas as lem
-from contracts.c05exec import PH, PTok, PV, SerExecutor, DICTSUB, hname, istype, cls_name, tname, BUILTIN_CLASS_NAMES
+from contracts.c05exec import marker, PH, PTok, PV, SerExecutor, DICTSUB, hname, istype, cls_name, tname, BUILTIN_CLASS_NAMES
 
 SER_PY = "sharepoint2text/parsing/extractors/serialization.py"
 DT_PY = "sharepoint2text/parsing/extractors/data_types.py"
@@ -122,7 +122,7 @@ def m_fields(ex, st, args, kwargs, node):
     v = args[0]
     if isinstance(v, PV):
         s2 = ex.fork_raise(st, sp.norm(z3.Not(V.is_DC(v.t))), "TypeError")
-        return [] if s2 is None else [(s2, PTok("fields", sp.norm(V.flds(v.t))))]
+        return [] if s2 is None else [(s2, PTok("fields", sp.norm(V.flds(v.t)), v.t))]
     if cls_name(v) is not None:
         return [(st, PTok("clsfields", cls_name(v)))]
     return ex.havoc_call(st, "fields", args, node)
@@ -132,11 +132,20 @@ def m_b64encode(ex, st, args, kwargs, node):
     v = args[0]
     if isinstance(v, PTok) and v.what == "bin":
         return [(st, PTok("b64", v.a))]
+    if isinstance(v, PV) and z3.is_true(sp.norm(V.is_Bytes(v.t))):       # bytes / bytearray passed directly
+        return [(st, PTok("b64", sp.norm(V.bp(v.t))))]
     return ex.havoc_call(st, "b64encode", args, node)
 
 
 def m_b64decode(ex, st, args, kwargs, node):
     v = args[0]
+    if isinstance(v, PV) and not kwargs:                                   # ASCII text is accepted as it is
+        s2 = ex.fork_raise(st, sp.norm(z3.Not(V.is_Str(v.t))), "TypeError")
+        if s2 is None:
+            return []
+        st, v = s2, PTok("enc", sp.norm(V.s(v.t)))
+    elif isinstance(v, VStr) and not kwargs:
+        v = PTok("enc", v.t)
     if isinstance(v, PTok) and v.what == "enc":
         ex.exc_any(st.fork(), f"{ex.loc(node)} base64.b64decode (binascii.Error)")
         return [(st, PTok("bin", sp.UNB64(v.a)))]
@@ -175,10 +184,13 @@ def m_get_type_hints(ex, st, args, kwargs, node):
 
 
 def install_models(reg):
+    install_cli_models(reg)
     reg.ext_models["dataclasses.is_dataclass"] = m_is_dataclass
     reg.ext_models["dataclasses.fields"] = m_fields
     reg.ext_models["base64.b64encode"] = m_b64encode
+    reg.ext_models["base64.standard_b64encode"] = m_b64encode
     reg.ext_models["base64.b64decode"] = m_b64decode
+    reg.ext_models["base64.standard_b64decode"] = m_b64decode
     reg.ext_models["typing.get_origin"] = m_get_origin
     reg.ext_models["typing.get_args"] = m_get_args
     reg.ext_models["typing.get_type_hints"] = m_get_type_hints
@@ -197,10 +209,88 @@ def local_refs(lc, kinds):
     return out
 
 
+ROLE_BY_FN = {}      # function name -> {role name used in this pack: the parameter's name in the real signature}
+
+
+def fuc_param(st, name):
+    """Current value of a parameter of the function under contract (frame 0), from inside a helper executed in place."""
+    fr = st.frames[0]
+    real = ROLE_BY_FN.get(getattr(fr.fnode, "name", None), {}).get(name, name)
+    return fr.env[real]
+
+
+class _Ctx:
+    """Clause view of a CallCtx in which the parameters are also reachable under the role names this pack uses."""
+
+    def __init__(self, c, roles):
+        object.__setattr__(self, "_c", c)
+        object.__setattr__(self, "_roles", roles)
+
+    def __getattr__(self, k):
+        c = object.__getattribute__(self, "_c")
+        if k == "args":
+            d = dict(c.args)
+            for role, real in object.__getattribute__(self, "_roles").items():
+                if real in d:
+                    d[role] = d[real]
+            return d
+        return getattr(c, k)
+
+    def __setattr__(self, k, v):
+        setattr(object.__getattribute__(self, "_c"), k, v)
+
+    def __getitem__(self, name):
+        return self.args[name]
+
+
+def _guard(fn, roles):
+    """Pack callbacks never crash the check on an unexpected code shape: the function is reported out of the verified subset
+    (-> native replay -> UNDECIDED), and they see renamed parameters under their role names."""
+    from pyvc.ops import Unsupported
+    if fn is None:
+        return None
+
+    def wrapped(c, *rest):
+        try:
+            return fn(_Ctx(c, roles) if roles and hasattr(c, "args") else c, *rest)
+        except Unsupported:
+            raise
+        except Exception as e:  # noqa
+            raise Unsupported(f"contract clause not applicable to this code shape ({type(e).__name__}: {e})")
+    return wrapped
+
+
+def bind_roles(contracts_):
+    """Parameters are bound BY POSITION to the real signature: renaming a parameter of a function under contract keeps it verified."""
+    for c in contracts_:
+        roles = {}
+        if "::" in c.target and not c.assumed:
+            rel, qual = c.target.split("::")
+            try:
+                fn = loader.module(rel).functions.get(qual)
+            except (OSError, SyntaxError):
+                fn = None
+            if fn is not None:
+                real = [a.arg for a in fn.args.posonlyargs + fn.args.args + fn.args.kwonlyargs]
+                mine = [p[0] for p in c.params]
+                if len(real) == len(mine) and real != mine:
+                    roles = {m_: r_ for m_, r_ in zip(mine, real) if m_ != r_}
+                    c.params = [(r_, mk) for r_, (_m, mk) in zip(real, c.params)]
+                    ROLE_BY_FN[fn.name] = roles
+        c.requires, c.hyps, c.returns = _guard(c.requires, roles), _guard(c.hyps, roles), _guard(c.returns, roles)
+        c.ensures = [(lbl, _guard(f, roles)) for lbl, f in c.ensures]
+        for r in c.raises:
+            r.when = _guard(r.when, roles)
+        if c.result_maker is not None:
+            rm = c.result_maker
+            c.result_maker = (lambda rm_, roles_: lambda ex, st, ctx: rm_(ex, st, _Ctx(ctx, roles_) if roles_ else ctx))(rm, roles)
+    return contracts_
+
+
 def ser_loop_inv(lc):
     """for item in fields(value): result == {_type: class name} + the encoded processed prefix."""
-    v = lc.entry.lookup("value").t
-    b = lc.entry.lookup("include_binary").t
+    v = lc.extra["obj"]                              # the instance whose fields are iterated
+    b = fuc_param(lc.st, "include_binary").t        # the flag of the function under contract (helpers must pass it on)
     acc = local_refs(lc, ("dict", "pvkv"))          # the accumulator: the one mapping this activation built (whatever its name)
     res = lc.ex.to_pv(lc.st, acc[0]) if len(acc) == 1 else None
     if res is None:
@@ -211,7 +301,7 @@ def ser_loop_inv(lc):
 def ser_loop_facts(ex, st, entry, step):
     """Instances of proved list lemmas (c05lemmas.L_lists / L_keys) at the current field."""
     done, fk, fv, rest = step
-    b = entry.lookup("include_binary").t
+    b = fuc_param(st, "include_binary").t
     one = KV.kcons(fk, fv, KV.knil)
     xv = sp.SER(fv, b)
     sub = lambda e, *pairs: z3.substitute(e, *pairs)
@@ -228,7 +318,7 @@ def ser_loop_facts(ex, st, entry, step):
 
 
 def ser_comp_specs(ex, st, n, kind, what):
-    b = st.lookup("include_binary").t
+    b = fuc_param(st, "include_binary").t
     if what == "list":
         return {"elem": lambda e: sp.SER(e, b), "map": lambda l: sp.SERL(l, b),
                 "facts": [lambda e, l: z3.substitute(lem.ME(lem.xl, lem.y), (lem.xl, l), (lem.y, e))], "mem": lambda e, l: sp.MEMV(l, e)}
@@ -282,10 +372,10 @@ def contracts(reg):
         params=[("value", p_pv()), ("include_binary", p_bool())],
         requires=lambda c: sp.SEROK(pvt(c, "value")),
         returns=lambda c: PV(sp.SER(pvt(c, "value"), c.args["include_binary"].t)),
-        loops={0: LoopSpec(inv=ser_loop_inv, label="fields")},
         note="computes SER(value, include_binary): markers _type/_bytes/_bytesio, binary -> null when excluded")
     c.comp_specs = ser_comp_specs
     c.loop_facts = ser_loop_facts
+    c.fields_loop = LoopSpec(inv=ser_loop_inv, label="fields")      # whichever loop iterates fields(<instance>)
     out.append(c)
     out.append(FnContract(
         target=f"{SER_PY}::serialize_extraction",
@@ -297,7 +387,7 @@ def contracts(reg):
     out.extend(decoder_contracts())
     out.extend(cli_contracts())
     out.extend(store_site_contracts(reg))
-    return out
+    return bind_roles(out)
 
 
 # ------------------------------------------------------------- the decoder --
@@ -348,6 +438,10 @@ def kw_invariant(seen, has, val, j, cn):
     return lem._kwinv(seen, has, val, j, cn)
 
 
+def all_seen(seen, cn):
+    return lem._allseen(seen, cn)
+
+
 def dd_loop_inv(lc):
     kws = local_refs(lc, ("pvmap",))                 # the keyword dictionary filled by the loop (whatever its name)
     if len(kws) != 1:
@@ -368,6 +462,21 @@ def dd_construct_facts(ex, st, cn, has, val):
         return []
     seen, has0, val0, j, cn0 = g
     return [lem.BM_all(seen, has, val, j, cn)]
+
+
+def dd_nameset_comp(ex, st, cn, nm, cond, vt, has, val):
+    """The keyword map written as a comprehension: when filter and value are `name in data` / the decoded entry, it is exactly
+    the map the field loop builds (the loop's exit invariant), so the same lemma instance applies."""
+    if not (z3.is_app(cond) and cond.decl().name() == "HASKEY" and cond.num_args() == 2 and cond.arg(1).eq(nm)):
+        return False
+    j = cond.arg(0)
+    if not vt.eq(sp.norm(sp.DESER(sp.GET(j, nm), sp.FH(cn, nm)))):
+        return False
+    seen = z3.Const(fresh_name("allseen"), z3.ArraySort(sp.S, sp.B))
+    st.assume(all_seen(seen, cn))
+    st.assume(kw_invariant(seen, has, val, j, cn))
+    st.ghost["kw_loop"] = (seen, has, val, j, cn)
+    return True
 
 
 def decoder_contracts():
@@ -398,9 +507,10 @@ def decoder_contracts():
         hyps=lambda c: z3.And(registry_env()),
         returns=lambda c: PV(sp.DESERDC(V.ents(pvt(c, "data")), exp_name(c))),
         raises=[Raises("Exception", sub=True, label="malformed encoding (not produced by to_json)")],
-        loops={0: LoopSpec(inv=dd_loop_inv, label="fields")},
         note="the class named by _type (if registered) else the expected class, every declared field decoded by its hint")
     c.construct_facts = dd_construct_facts
+    c.nameset_comp = dd_nameset_comp
+    c.nameset_loop = LoopSpec(inv=dd_loop_inv, label="fields")    # whichever loop iterates the set of field names
     out.append(c)
     out.append(FnContract(
         target=f"{SER_PY}::deserialize_extraction", params=[("data", p_pv())],
@@ -430,6 +540,97 @@ def results_encodable(c):
     return z3.ForAll([i], sp.SEROK(RES(i)), patterns=[RES(i)])
 
 
+from pyvc.values import VExt, ext_sort
+ARGS = ext_sort("CliArgs")
+A_JSON, A_UNIT, A_BIN = (z3.Function(n_, ARGS, z3.BoolSort()) for n_ in ("args_json", "args_json_unit", "args_binary"))
+
+
+def main_contract(res_spec, unit_spec):
+    """cli.main, JSON modes: what is written to stdout is json.dumps(<shaped payload>) with the standard encoder's defaults,
+    then a newline; the payload is that of _serialize_unit_results (--json-unit) / _serialize_results (--json) with
+    include_binary == --binary.  Executed in abstract mode (argument parsing, file system, extraction are EXC-ANY models);
+    private helpers of cli.py are executed in place."""
+    from pyvc.verify import p_unk
+
+    def read_file_result(ex, st, ctx):
+        n = z3.Int(fresh_name("n_results"))
+        st.assume(n >= 0)
+        i = z3.Int("i!res")
+        st.assume(z3.ForAll([i], sp.SEROK(RES(i)), patterns=[RES(i)]))
+        st.ghost["cli_results_n"] = n
+        return VSeq(n, lambda k: PV(RES(k)), "result")
+
+    def stdout_is_shaped_json(c):
+        g = c.st.ghost
+        code = c.result.const() if hasattr(c.result, "const") else None
+        if code != 0:
+            return T                                        # failures: C01's business
+        a = g.get("cli_args")
+        writes = g.get("stdout_written", [])
+        if a is None:
+            c.note = "arguments were not parsed on this path"
+            return F
+        jsonmode = z3.Or(A_JSON(a), A_UNIT(a))
+        dumped = g.get("json_dumped", {})
+        if len(writes) == 2 and isinstance(writes[0], VStr) and writes[0].t.get_id() in dumped and isinstance(writes[1], VStr) and writes[1].const() == "\n":
+            val, kws = dumped[writes[0].t.get_id()]
+            if kws:
+                c.note = f"json.dumps called with {sorted(kws)}: not the standard encoder's defaults (ensure_ascii etc.)"
+                return z3.And(z3.Not(jsonmode), marker(UNMODELLED))
+            n = g.get("cli_results_n")
+            if n is None:
+                return F
+            b = A_BIN(a)
+            eq = lambda spec: z3.And([z3.Implies(cond, c.ex._eqv(c.st, val, want)) for cond, want in spec])
+            return z3.Implies(jsonmode, z3.If(A_UNIT(a), eq(unit_spec(n, b)), eq(res_spec(n, b))))
+        c.note = f"{len(writes)} write(s) to stdout that are not `json.dumps(payload)` + newline"
+        return z3.Not(jsonmode)
+
+    out = [FnContract(target="sharepoint2text/__init__.py::read_file", params=[("path", p_unk())], assumed=True,
+                      result_maker=read_file_result, may_raise_any=True,
+                      note="yields the extraction results (a finite sequence of encodable dataclass instances) or raises"),
+           FnContract(target=f"{CLI_PY}::_build_parser", params=[], assumed=True, result_maker=lambda ex, st, ctx: VExt("CliParser"),
+                      note="argparse parser with the flags --json, --json-unit, --binary"),
+           FnContract(target=f"{CLI_PY}::main", params=[("argv", p_unk())],
+                      ensures=[("stdout-is-json-dumps-of-the-shaped-payload", stdout_is_shaped_json)],
+                      raises=[Raises("Exception", sub=True), Raises("SystemExit")],
+                      note="--json / --json-unit (--binary): stdout == json.dumps(payload) + newline, payload shaped as specified")]
+    EXECUTOR_KW[f"{CLI_PY}::main"] = {"abstract": True, "inline_calls": False, "inline_local": True}
+    return out
+
+
+def install_cli_models(reg):
+    def m_parse(ex, st, obj, args, kwargs, node):
+        ex.raise_in(ex.mark(st.fork()), ex.mk_exc("SystemExit"))
+        a = VExt("CliArgs")
+        st.ghost["cli_args"] = a.t
+        n = z3.Int(fresh_name("n_unknown"))
+        st.assume(n >= 0)
+        return [(st, VTuple([a, VSeq(n, lambda i: VUnk("arg"), "str")]))]
+
+    def m_write(ex, st, args, kwargs, node):
+        ex.exc_any(st.fork(), f"{ex.loc(node)} sys.stdout.write")
+        st.ghost["stdout_written"] = st.ghost.get("stdout_written", []) + [args[0] if args else NONE]
+        return [(st, VUnk("n"))]
+
+    def m_dumps(ex, st, args, kwargs, node):
+        ex.exc_any(st.fork(), f"{ex.loc(node)} json.dumps")
+        t = VStr(z3.String(fresh_name("json_text")))
+        d = dict(st.ghost.get("json_dumped", {}))
+        d[t.t.get_id()] = (args[0] if args else NONE, dict(kwargs))
+        st.ghost["json_dumped"] = d
+        st.ghost.setdefault("_keep", []).append(t.t)
+        return [(st, t)]
+
+    reg.method_models[("CliParser", "parse_known_args")] = m_parse
+    reg.method_models[("CliParser", "parse_args")] = lambda ex, st, obj, args, kwargs, node: [(s_, v.items[0]) for s_, v in m_parse(ex, st, obj, args, kwargs, node)]
+    reg.attr_models[("CliArgs", "json")] = lambda ex, st, o: VBool(A_JSON(o.t))
+    reg.attr_models[("CliArgs", "json_unit")] = lambda ex, st, o: VBool(A_UNIT(o.t))
+    reg.attr_models[("CliArgs", "binary")] = lambda ex, st, o: VBool(A_BIN(o.t))
+    reg.ext_models["sys.stdout.write"] = m_write
+    reg.ext_models["json.dumps"] = m_dumps
+
+
 def cli_contracts():
     from contracts.c05exec import UNIT, UNITS_N
     n_of = lambda c: c.args["results"].length
@@ -444,6 +645,10 @@ def cli_contracts():
                                                                   else V.is_Dict(c.result.t)))],
         note="--json: the to_json object for exactly one result, otherwise the array of the to_json objects, in order"))
     units = lambda c, r: VSeq(UNITS_N(r), lambda i, c=c, r=r: PV(sp.SX(UNIT(r, i), b_of(c))), "unit object")
+    res_spec = lambda n, b: [(n == 1, PV(sp.SX(RES(z3.IntVal(0)), b))), (n != 1, VSeq(n, lambda i, b=b: PV(sp.SX(RES(i), b)), "object"))]
+    units_b = lambda b, r: VSeq(UNITS_N(r), lambda i, b=b, r=r: PV(sp.SX(UNIT(r, i), b)), "unit object")
+    unit_spec = lambda n, b: [(n == 1, units_b(b, RES(z3.IntVal(0)))), (n != 1, VSeq(n, lambda j, b=b: units_b(b, RES(j)), "array of unit objects"))]
+    out.extend(main_contract(res_spec, unit_spec))
     out.append(FnContract(
         target=f"{CLI_PY}::_serialize_unit_results", params=[("results", p_results()), ("include_binary", p_bool())],
         requires=results_encodable,
@@ -459,19 +664,13 @@ UNMODELLED = "c05!value-of-unmodelled-kind"
 
 
 def _untrusted(pc, goal):
-    """A counter-model that only says 'the value produced by an unmodelled library call is not JSON-able' is not a
-    counter-example by itself: the obligation becomes `unknown` and the native replayer decides (VIOLATION with a
-    failing document, else UNDECIDED)."""
-    seen, stack = set(), [goal]
-    while stack:
-        x = stack.pop()
-        if x.get_id() in seen:
-            continue
-        seen.add(x.get_id())
-        if z3.is_const(x) and x.decl().name().startswith(UNMODELLED):
-            return True
-        stack.extend(x.children())
-    return False
+    """Policy of this pack: a `sat` answer never becomes a VIOLATION by itself.  The VCs mention spec functions that stay
+    folded on symbolic arguments, values of unmodelled calls and marks of over-approximated paths, so a model may be an
+    artefact of the encoding (measured: behaviour-preserving refactorings gave such models).  Every non-proved obligation is
+    `unknown`; the native replayer (function-level differential against the executable SER/DESER contract, directed
+    document / CLI scopes) then either produces a failing input on the real code (VIOLATION with replay) or the obligation
+    is UNDECIDED.  Proofs (`unsat`) are unaffected."""
+    return True
 
 
 from pyvc import solve as _solve
@@ -488,7 +687,7 @@ def result_scalar(c, idx=None):
     t = c.ex.to_pv(c.st, r)
     if t is None and isinstance(r, VUnk):
         c.note = f"the stored value comes from an unmodelled call ({r.tag})"
-        return z3.Bool(fresh_name(UNMODELLED))
+        return marker(UNMODELLED)
     return sp.scalar_ok(t) if t is not None else F
 
 
@@ -542,7 +741,7 @@ def store_site_contracts(reg):
         raises=[Raises("Exception", sub=True, label="malformed attribute values (OverflowError of int(inf) etc.): outside C05")],
         note="what OdsSheet.data (List[List[Any]]) receives: the first component is None/bool/int/float/str on every path "
              "(the cell is an abstract xml element: every value-type / attribute text)"))
-    EXECUTOR_KW[f"{ODS_PY}::_extract_cell_value"] = {"inline_calls": False, "abstract": True}
+    EXECUTOR_KW[f"{ODS_PY}::_extract_cell_value"] = {"inline_calls": False, "abstract": True, "inline_local": True}
     return out
 
 
@@ -720,6 +919,28 @@ def covers(repo, tier):
     return {"obligations": obls}
 
 
+def returns_serialize_of_self(body):
+    """`return serialize_extraction(self[, include_binary=True])`, possibly through single-assignment temporaries."""
+    temps = {}
+    for st_ in body[:-1]:
+        if isinstance(st_, ast.Assign) and len(st_.targets) == 1 and isinstance(st_.targets[0], ast.Name) and st_.targets[0].id not in temps:
+            temps[st_.targets[0].id] = st_.value
+        elif not (isinstance(st_, ast.Expr) and isinstance(st_.value, ast.Call) and ast.unparse(st_.value.func).startswith(("logger.", "logging."))):
+            return False
+    if not body or not isinstance(body[-1], ast.Return):
+        return False
+    e = body[-1].value
+    seen = 0
+    while isinstance(e, ast.Name) and e.id in temps and seen < 5:
+        e, seen = temps[e.id], seen + 1
+    if not (isinstance(e, ast.Call) and ast.unparse(e.func) in ("serialize_extraction", "serialization.serialize_extraction")):
+        return False
+    args = [ast.unparse(a) for a in e.args]
+    kws = {k.arg: ast.unparse(k.value) for k in e.keywords}
+    pos_ok = args == ["self"] or (args == [] and kws.get("value") == "self")
+    return pos_ok and all(k in ("value", "include_binary") for k in kws) and kws.get("include_binary", "True") == "True"
+
+
 def glue(repo, tier):
     """The public methods are thin wrappers of the functions under contract (syntactic; unrecognised shape -> UNDECIDED)."""
     obls = []
@@ -731,8 +952,8 @@ def glue(repo, tier):
             if not body and q.split(".")[0] in ("ExtractionInterface", "UnitInterface"):
                 continue      # abstract declaration
             n += 1
-            if not (len(body) == 1 and isinstance(body[0], ast.Return) and ast.unparse(body[0].value) == "serialize_extraction(self)"):
-                bad.append(f"{q}: {ast.unparse(body[0])[:60] if body else 'empty'}")
+            if not returns_serialize_of_self(body):
+                bad.append(f"{q}: {ast.unparse(body[-1])[:60] if body else 'empty'}")
     obls.append(ground_obligation("C05/data_types.py::to_json/glue#every-to_json-is-serialize_extraction-of-self", n >= 30 and not bad, "; ".join(bad) or f"{n} to_json methods",
                                   DT_PY, kind="glue", backend="ground", definite=False))
     fj = m.functions.get("ExtractionInterface.from_json")
@@ -741,131 +962,49 @@ def glue(repo, tier):
     imp_ok = m.imports.get("serialize_extraction", "").endswith("serialization.serialize_extraction") and m.imports.get("deserialize_extraction", "").endswith("serialization.deserialize_extraction")
     obls.append(ground_obligation("C05/data_types.py::imports/glue#names-bound-to-serialization-module", imp_ok, str({k: m.imports.get(k) for k in ("serialize_extraction", "deserialize_extraction")}),
                                   DT_PY, kind="glue", backend="ground", definite=False))
-    c = loader.module(CLI_PY, repo)
-    mn = c.functions.get("main")
-    ok, why = False, "cli.main missing"
-    if mn is not None:
-        src = ast.unparse(mn)
-        dumps = [x for x in ast.walk(mn) if isinstance(x, ast.Call) and ast.unparse(x.func) in ("json.dumps", "json.dump")]
-        pay = [x for x in ast.walk(mn) if isinstance(x, ast.Assign) and ast.unparse(x.targets[0]) == "payload"]
-        want = "_serialize_unit_results(results, include_binary=include_binary) if args.json_unit else _serialize_results(results, include_binary=include_binary)"
-        # the text written is json.dumps(payload) with the standard encoder's defaults (ensure_ascii: any str, including lone
-        # surrogates from surrogateescape'd names, is written as ASCII), written unchanged to sys.stdout
-        texts = [x for x in ast.walk(mn) if isinstance(x, ast.Assign) and x.value in dumps]
-        tname_ = ast.unparse(texts[0].targets[0]) if len(texts) == 1 else None
-        writes = [ast.unparse(x) for x in ast.walk(mn) if isinstance(x, ast.Call) and ast.unparse(x.func) in ("sys.stdout.write", "print", "sys.stdout.buffer.write")
-                  and any(tname_ in [n_.id for n_ in ast.walk(a_) if isinstance(n_, ast.Name)] for a_ in x.args)]
-        ok = len(pay) == 1 and ast.unparse(pay[0].value) == want and len(dumps) == 1 and ast.unparse(dumps[0]) == "json.dumps(payload)" \
-            and "include_binary = bool(args.binary)" in src and tname_ is not None and writes == [f"sys.stdout.write({tname_})"]
-        why = f"payload = {ast.unparse(pay[0].value)[:100] if pay else '?'}; encoder call(s): {[ast.unparse(x) for x in dumps]}; writes: {writes}"
-    obls.append(ground_obligation("C05/cli.py::main/glue#stdout-json-is-the-shaped-payload", ok, why, CLI_PY, kind="glue", backend="ground", definite=False))
-    return {"obligations": obls, "functions": [dict(c.fn_info("main"), obligations=1)] if mn is not None else []}
+    return {"obligations": obls, "functions": []}
+
 
 
 def store_site_coverage(repo, tier):
-    """Call-site coverage of the cell normalisers: everything that reaches XlsxSheet.data / XlsSheet.data went through
-    `_get_cell_value` / `_get_cell_values` (or is a header string).  Syntactic provenance inside the one function that
-    builds the rows; an unrecognised shape is `unknown` (the native cell-kind scopes then decide)."""
+    """Call-site coverage of the cell normalisers: what reaches XlsxSheet.data / XlsSheet.data / OdsSheet.data is built only from
+    results of `_get_cell_value` / `_get_cell_values` / `_extract_cell_value` (first component) and scalars built in place (header
+    strings, None padding).  Provenance by abstract interpretation of the row-building function (c05registry.Provenance: follows
+    comprehensions, loops, enumerate/zip, appends, item stores, unpacking, slices -- independent of local names and statement
+    shapes); a value of unknown provenance makes the obligation `unknown` (the native cell-kind scopes then decide)."""
+    from contracts import c05registry as R
     obls, fns = [], []
-
-    def assigns_of(fn, name):
-        out = []
-        for n in ast.walk(fn):
-            if isinstance(n, (ast.Assign, ast.AnnAssign)) and n.value is not None:
-                tgts = n.targets if isinstance(n, ast.Assign) else [n.target]
-                for t in tgts:
-                    if isinstance(t, ast.Name) and t.id == name:
-                        out.append(("direct", n.value, None))
-                    elif isinstance(t, ast.Tuple):
-                        for i, e in enumerate(t.elts):
-                            if isinstance(e, ast.Name) and e.id == name:
-                                out.append(("unpack", n.value, i))
-        return out
-
-    def appends_to(fn, name):
-        return [n.args[0] for n in ast.walk(fn) if isinstance(n, ast.Call) and isinstance(n.func, ast.Attribute) and n.func.attr == "append"
-                and isinstance(n.func.value, ast.Name) and n.func.value.id == name and len(n.args) == 1]
-
-    def other_mutations(fn, name):
-        return [ast.unparse(n)[:60] for n in ast.walk(fn) if isinstance(n, ast.Call) and isinstance(n.func, ast.Attribute)
-                and isinstance(n.func.value, ast.Name) and n.func.value.id == name and n.func.attr in ("extend", "insert", "update", "setdefault", "__setitem__")]
-
-    # ---- xlsx
-    m = loader.module(XLSX_PY, repo)
-    fn = m.functions.get("_read_sheet_data")
-    oid = "C05/xlsx_extractor.py::_read_sheet_data/store-sites#sheet-data-only-from-_get_cell_value"
-    if fn is None:
-        obls.append(ground_obligation(oid, False, "function missing", XLSX_PY, kind="store-sites", backend="dataflow", definite=False))
-    else:
-        why = []
-
-        def leaf_ok(e):
-            if isinstance(e, ast.Call) and ast.unparse(e.func) == "_get_cell_value" and len(e.args) == 1:
-                return True
-            if isinstance(e, ast.Call) and ast.unparse(e.func) == "str":
-                return True
-            if isinstance(e, ast.JoinedStr) or (isinstance(e, ast.Constant) and (e.value is None or isinstance(e.value, str))):
-                return True
-            if isinstance(e, ast.IfExp):
-                return leaf_ok(e.body) and leaf_ok(e.orelse)
-            return False
-
-        def expr_ok(e, depth=0):
-            if depth > 4:
-                return False
-            if isinstance(e, ast.ListComp):
-                return leaf_ok(e.elt)
-            if isinstance(e, ast.DictComp):
-                return leaf_ok(e.value)
-            if isinstance(e, ast.List):
-                return all(expr_ok(x, depth + 1) for x in e.elts)
-            if isinstance(e, ast.Name):
-                a = assigns_of(fn, e.id)
-                return bool(a) and all(k == "direct" and expr_ok(v, depth + 1) for k, v, _i in a) and all(expr_ok(x, depth + 1) for x in appends_to(fn, e.id)) \
-                    and not other_mutations(fn, e.id)
-            return False
-        rets = [n for n in ast.walk(fn) if isinstance(n, ast.Return) and n.value is not None]
-        for r in rets:
-            parts = r.value.elts if isinstance(r.value, ast.Tuple) else [r.value]
-            for part in parts:
-                if not expr_ok(part):
-                    why.append(f"line {r.lineno}: `{ast.unparse(part)[:50]}` is not built only from _get_cell_value(...) / header strings")
-        obls.append(ground_obligation(oid, bool(rets) and not why, "; ".join(why) or f"{len(rets)} return site(s)", f"{XLSX_PY}:{fn.lineno}", kind="store-sites",
-                                      backend="dataflow", definite=False))
-        fns.append(dict(m.fn_info("_read_sheet_data"), obligations=1))
-    # ---- xls
-    m = loader.module(XLS_PY, repo)
-    oid = "C05/xls_extractor.py::_read_content/store-sites#sheet-data-only-from-_get_cell_values"
-    cands = [(q, f) for q, f in m.functions.items() if any(isinstance(n, ast.Call) and ast.unparse(n.func) == "XlsSheet" for n in ast.walk(f))]
-    why, n_sites = [], 0
-    for q, fn in cands:
-        for call in [n for n in ast.walk(fn) if isinstance(n, ast.Call) and ast.unparse(n.func) == "XlsSheet"]:
-            dkw = [k.value for k in call.keywords if k.arg == "data"] + ([call.args[1]] if len(call.args) > 1 else [])
-            for dv in dkw:
-                n_sites += 1
-                if isinstance(dv, ast.List) and not dv.elts:
-                    continue
-                if not isinstance(dv, ast.Name):
-                    why.append(f"{q}:{call.lineno} data={ast.unparse(dv)[:40]}")
-                    continue
-                if other_mutations(fn, dv.id) or not all(k == "direct" and isinstance(v, ast.List) and not v.elts for k, v, _i in assigns_of(fn, dv.id)):
-                    why.append(f"{q}: `{dv.id}` is not a list filled only by append")
-                for row in appends_to(fn, dv.id):
-                    if not isinstance(row, ast.Name):
-                        why.append(f"{q}: appended row `{ast.unparse(row)[:40]}`")
-                        continue
-                    stores = [n for n in ast.walk(fn) if isinstance(n, ast.Assign) and any(isinstance(t, ast.Subscript) and isinstance(t.value, ast.Name) and t.value.id == row.id
-                                                                                           for t in n.targets)]
-                    if other_mutations(fn, row.id) or not stores or not all(k == "direct" and isinstance(v, ast.Dict) and not v.keys for k, v, _i in assigns_of(fn, row.id)):
-                        why.append(f"{q}: row `{row.id}` is not a dict filled only by item stores")
-                    for st_ in stores:
-                        v = st_.value
-                        srcs = assigns_of(fn, v.id) if isinstance(v, ast.Name) else []
-                        if not srcs or not all(k == "unpack" and i == 0 and isinstance(val, ast.Call) and ast.unparse(val.func) == "_get_cell_values" for k, val, i in srcs):
-                            why.append(f"{q}:{st_.lineno} stored value `{ast.unparse(v)[:40]}` is not the native value of _get_cell_values(...)")
-        fns.append(dict(m.fn_info(q), obligations=1))
-    obls.append(ground_obligation(oid, n_sites >= 1 and not why, "; ".join(why) or f"{n_sites} XlsSheet(data=...) site(s)", XLS_PY, kind="store-sites", backend="dataflow",
-                                  definite=False))
+    pair = ("tuple", ("n", "n"))
+    sites = [(XLSX_PY, "xlsx_extractor.py", "_read_sheet_data", {"_get_cell_value": "n"}, ("return", None, None), "sheet-data-only-from-_get_cell_value"),
+             (XLS_PY, "xls_extractor.py", None, {"_get_cell_values": pair}, ("kwarg", "XlsSheet", "data"), "sheet-data-only-from-_get_cell_values"),
+             (ODS_PY, "ods_extractor.py", None, {"_extract_cell_value": pair}, ("attr", "data", None), "sheet-data-only-from-_extract_cell_value")]
+    for rel, short, fname, norm, sink, label in sites:
+        m = loader.module(rel, repo)
+        cands = [(fname, m.functions.get(fname))] if fname else list(m.functions.items())
+        found, why = [], []
+        for q, fn in cands:
+            if fn is None:
+                continue
+            try:
+                pv_ = R.Provenance(fn, norm)
+                got = pv_.sinks(*sink)
+            except Exception as e:  # noqa  (a shape the interpreter does not know: undecided, never an engine error)
+                why.append(f"{q}: provenance analysis failed ({type(e).__name__})")
+                continue
+            for ln, shape in got:
+                found.append((q, ln, shape))
+                if not R.sok(shape):
+                    why.append(f"{q}:{ln} stores {R.stext(shape)} (a `raw` part did not come from {', '.join(norm)})")
+            if got:
+                fns.append(dict(m.fn_info(q), obligations=1))
+        qn = fname or "<row builder>"
+        oid = f"C05/{short}::{qn}/store-sites#{label}"
+        uses_norm = any(isinstance(n, ast.Call) and getattr(n.func, "id", None) in norm for q, _l, _s in found for n in ast.walk(m.functions[q]))
+        ok = bool(found) and not why and uses_norm
+        if found and not uses_norm and not why:
+            why.append("the row builder never calls the cell normaliser")
+        obls.append(ground_obligation(oid, ok, "; ".join(why) or "; ".join(f"{q}:{ln} {R.stext(sh)}" for q, ln, sh in found)[:300] or "no store site found",
+                                      rel, kind="store-sites", backend="dataflow", definite=False))
     return {"obligations": obls, "functions": fns}
 
 
@@ -902,7 +1041,7 @@ def native_scope(repo, tier):
     return {"obligations": obls, "undecided": und}
 
 
-EXTRA = [registry, ods_cell_kinds, covers, glue, store_site_coverage, native_scope]
+EXTRA = [registry, covers, glue, store_site_coverage, native_scope]
 
 
 def recorded_exclusions():
